@@ -23,6 +23,7 @@ type c06Case struct {
 	Del  delivery `json:"delivery"`
 	Cut  int      `json:"cut"` // prefix length 1..len-1
 	R    rcfg     `json:"reader"`
+	Skip []int    `json:"skip,omitempty"` // lengths of skippable frames placed before the frame (cuts inside them count too)
 }
 
 type c06Frame struct {
@@ -35,6 +36,16 @@ func buildC06Frame(c c06Case) (*c06Frame, *stat.Failure) {
 	z, f := emit(c.Opts, data, "write", c.Del, nil)
 	if f != nil {
 		return nil, stat.Failf("C06/cannot-build-frame", "%s", f.Msg)
+	}
+	if len(c.Skip) > 0 {
+		var pre []byte
+		for i, n := range c.Skip {
+			pre = append(pre, byte(0x50+(i*5+n)%16), 0x2A, 0x4D, 0x18, byte(n), byte(n>>8), byte(n>>16), byte(n>>24))
+			junk := make([]byte, n)
+			gen.Fill(junk, uint64(n))
+			pre = append(pre, junk...)
+		}
+		z = append(pre, z...)
 	}
 	fr := ref.ParseFrame(z, ref.Lenient)
 	if !fr.OK() || !bytes.Equal(fr.Content, data) {
@@ -60,6 +71,12 @@ func runC06Cut(c c06Case, fz *c06Frame, rec *stat.Rec) *stat.Failure {
 	kind, have := fieldAt(fz.fr, c.Cut)
 	if c.Opts.Legacy && have == 0 && (kind == "lbsize" || kind == "end") {
 		rec.Class("skipped/legacy-cut-on-block-boundary")
+		return nil
+	}
+	if have == 0 && (kind == "magic" || kind == "lmagic" || kind == "skipmagic") {
+		// the prefix ends exactly where a frame would begin: it holds complete skippable frames and no (part of a) data
+		// frame, so nothing is cut short; the statement starts after the first byte of the frame
+		rec.Class("skipped/cut-on-a-frame-boundary")
 		return nil
 	}
 	rec.Eval()
@@ -141,7 +158,7 @@ const c06Rule = "rapid-drawn frames (full option matrix incl. legacy, Write part
 func TestC06(t *testing.T) {
 	rec := stat.For("C06")
 	rec.SetRule(c06Rule)
-	rec.Require("cut/csum/zero-bytes-left", "cut/endmark/zero-bytes-left", "cut/bsize/zero-bytes-left", "cut/bdata/zero-bytes-left", "cut/hc/zero-bytes-left", "cut/bsum/zero-bytes-left", "cut/lbdata/zero-bytes-left", "cut/csize/inside")
+	rec.Require("cut/skiplen/zero-bytes-left", "cut/skipdata/inside", "cut/magic/inside", "cut/csum/zero-bytes-left", "cut/endmark/zero-bytes-left", "cut/bsize/zero-bytes-left", "cut/bdata/zero-bytes-left", "cut/hc/zero-bytes-left", "cut/bsum/zero-bytes-left", "cut/lbdata/zero-bytes-left", "cut/csize/inside")
 	n := pick(150, 4000)
 	n = (n + nshards - 1) / nshards
 	setRapid(n, "C06/cut")
@@ -164,6 +181,9 @@ func TestC06(t *testing.T) {
 		if c.Opts.Legacy {
 			// a mid-stream Flush cuts short legacy blocks, which opens the kernel-trailer ambiguity (known finding of C02)
 			c.Del.Flush = nil
+		}
+		if rapid.IntRange(0, 3).Draw(rt, "skippable?") == 0 {
+			c.Skip = rapid.SliceOfN(rapid.SampledFrom([]int{0, 1, 3, 4, 9, 200}), 1, 2).Draw(rt, "skip")
 		}
 		fz, f := buildC06Frame(c)
 		if f != nil {
